@@ -9,7 +9,10 @@
   * every registered non-protected type object is the same object with its member list FILTERED by the predicate
     (`keptOf`: `is_field_visible(type, field)` for object / interface types, `is_input_field_visible(type, field)` for input
     objects; union / enum / scalar types untouched): result members = source members filtered by the predicate, in order.
-  With `clone_refines` (a clone has the source's by-name view) this is the statement for `transform_schema` by name.
+  With `clone_refines` (a clone has the source's by-name view) this is the statement for `transform_schema` by name
+  (`visibility_members_exact_transform`).
+  `visibility_keeps_visible_types` (FULL, types may be hidden): every type the predicate keeps visible is still registered —
+  with `visibility_hides_type`: the names of the result = the names of the source filtered by `is_type_visible`.
   For the identity visitor (`clone`) the equalities are `clone_members_exact` / `clone_refines`; for camel-casing
   `camel_case_exact` (equality up to the renaming). OPEN (named): when TYPES are hidden too, the members that mention a hidden
   type are dropped by the healing rounds; that the OTHER members all survive is not proved (`Sub2` + `visibility_hides_type` +
@@ -236,5 +239,94 @@ theorem visibility_members_exact_transform (cfg : Cfg) (hd : cfg.deepClone = tru
       cases e
       obtain ⟨k1, k2, k3, k4⟩ := visibility_members_exact cfg (2 + fuel) p hall s1 h1 _ _ w1 hr2
       exact ⟨h1, s1, hr, k1, clone_types_view cfg hd hk (2 + fuel) s h h1 s1 hc hw hr, k2, k3, k4⟩
+
+/-! ### the TYPE-level lower bound: a visible type is still registered -/
+
+theorem replaceTypes_names_except (cfg : Cfg) (n : String) : ∀ (ut : List (String × Option Addr)) (reg : List (String × Addr)) (b : Bool),
+    (∀ x, x ∈ ut → x.1 = n → x.2 ≠ none) → n ∈ regNames reg → n ∈ regNames (replaceTypes cfg reg b ut).1 := by
+  intro ut
+  induction ut with
+  | nil => intro reg b _ hn; simpa [replaceTypes] using hn
+  | cons x rest ih =>
+    intro reg b hs hn
+    obtain ⟨nm, new⟩ := x
+    have hr : ∀ x, x ∈ rest → x.1 = n → x.2 ≠ none := fun x hx => hs x (by simp [hx])
+    simp only [replaceTypes]
+    split
+    · exact ih reg b hr hn
+    · cases new with
+      | none =>
+        apply ih _ _ hr
+        have hne : nm ≠ n := fun hnm => hs (nm, none) (by simp) hnm rfl
+        simp only [regNames, List.mem_map] at hn ⊢
+        obtain ⟨e, he, hen⟩ := hn
+        exact ⟨e, List.mem_filter.mpr ⟨he, by simp [hen]; exact fun hx => hne hx.symm⟩, hen⟩
+      | some a' => exact ih _ _ hr (regSet_names reg nm a' n hn)
+
+theorem onType_vis_none (p : VisP) (reg : List (String × Addr)) (h : Heap) (a : Addr) (e : (onType (.vis p) reg h a).2 = none) :
+    ∃ t, h.readType a = some t ∧ p.isTypeVisible t.name = false := by
+  cases ht : h.readType a with
+  | none => simp [onType, ht] at e
+  | some t =>
+    refine ⟨t, rfl, ?_⟩
+    cases hv : p.isTypeVisible t.name with
+    | false => rfl
+    | true =>
+      exfalso
+      simp only [onType, ht] at e
+      cases hk : t.kind <;> simp only [hk] at e
+      · simp [onComposite, hv, compositeRest_vis_eq] at e
+        split at e <;> cases e
+      · simp [onComposite, hv, compositeRest_vis_eq] at e
+        split at e <;> cases e
+      · simp [onUnion, hv] at e
+      · simp [onLeaf, hv] at e
+      · simp only [onInputObject, inputRest, hv, if_true] at e
+        split at e <;> cases e
+      · simp [onLeaf, hv] at e
+
+theorem visitTypes_vis_none (p : VisP) (reg : List (String × Addr)) : ∀ (l : List (String × Addr)) (h : Heap),
+    (∀ e, e ∈ l → nameOK h e = true) → ∀ x, x ∈ (visitTypes (.vis p) reg h l).2 → x.2 = none → p.isTypeVisible x.1 = false := by
+  intro l
+  induction l with
+  | nil => intro h _ x hx; simp [visitTypes] at hx
+  | cons e0 rest ih =>
+    intro h hname x hx hnone
+    obtain ⟨n, a⟩ := e0
+    simp only [visitTypes] at hx
+    split at hx
+    · exact ih h (fun e he => hname e (by simp [he])) x hx hnone
+    · have hstep := onType_step (.vis p) reg h a (fun _ => true) (by simp [Compat])
+      have hname' : ∀ e, e ∈ rest → nameOK (onType (.vis p) reg h a).1 e = true :=
+        fun e he => nameOK_keep hstep e (hname e (by simp [he]))
+      split at hx
+      · simp only [List.mem_cons] at hx
+        rcases hx with rfl | hx
+        · obtain ⟨t, ht, hv⟩ := onType_vis_none p reg h a hnone
+          have hn := hname (n, a) (by simp)
+          simp only [nameOK, ht, beq_iff_eq] at hn
+          simp only []
+          rw [← hn]; exact hv
+        · exact ih _ hname' x hx hnone
+      · exact ih _ hname' x hx hnone
+
+/-- FULL: a type the predicate keeps visible is still registered after `VisibilitySchemaTransform.on_schema` (healing included):
+    with `visibility_hides_type`, `names s' = names s` filtered by `is_type_visible` -/
+theorem visibility_keeps_visible_types (cfg : Cfg) (fuel : Nat) (p : VisP) (s : Schema) (h h' : Heap) (s' : Schema)
+    (hw : wfB h s = true) (e : onSchema cfg fuel (.vis p) s h = some (h', s')) :
+    ∀ n, n ∈ names s → p.isTypeVisible n = true → n ∈ names s' := by
+  have w := wfs_of_wfB hw
+  intro n hn hv
+  have h1 : n ∈ regNames (replaceCore cfg s (visitAll (.vis p) s h).2.1 (visitAll (.vis p) s h).2.2).1.types := by
+    simp only [replaceCore, visitAll]
+    apply replaceTypes_names_except cfg n _ _ _ _ hn
+    intro x hx hxn hnone
+    have := visitTypes_vis_none p s.types s.types h w.names x hx hnone
+    rw [hxn, hv] at this
+    cases this
+  simp only [onSchema, replaceTD] at e
+  split at e
+  · exact healLoop_names cfg fuel _ _ _ _ e n h1
+  · cases e; exact h1
 
 end PyGql.Props.C14
